@@ -753,12 +753,12 @@ fn key_ops(recs: &[Rec], key: u8) -> Vec<KOp> {
                         if let Ok(v) = other {
                             push(Sem::Read(*v), r.invoke, r.response);
                         }
-                        // the caller was answered by someone else (or with an error); if its own origin produced a
-                        // value, the fetch task may still insert it, at any later time (it is not synchronised with
-                        // this caller any more)
-                        if *origin_done != 0 {
-                            push(Sem::MaybeWrite(own), *origin_done, u64::MAX);
-                        }
+                        // The caller was answered by someone else: either it joined another call's flight (its own
+                        // origin future is then never polled) or an explicit insert closed its flight - and the fetch
+                        // task publishes its result only if the flight is still open, decided in the same critical
+                        // section in which the insert closes it. Either way its own value never enters the cache: no
+                        // write is modelled, so a later read of that value has no linearization.
+                        let _ = origin_done;
                     }
                 }
             }
